@@ -73,3 +73,30 @@ package abci
 //@   loop 1 invariant forall j int :: 0 <= j && j < idx() ==> ufr[error]("CanPruneConsensus", p.handlers[j], v) == nil
 //@   ensures err == nil ==> (forall j int :: 0 <= j && j < len(p.handlers) ==> ufr[error]("CanPruneConsensus", p.handlers[j], v) == nil)
 //@   note nil is returned only if every registered handler was asked about exactly this version and answered nil; a handler's answer is treated as a function of (handler, version) (noeffect.txt pure:CanPruneConsensus)
+
+// ---- transaction admission (C09, C16): size limit, envelope, signature, signer ----
+
+//@ func applicationState.ConsensusParameters
+//@   props C09 C16
+//@   requires s != nil
+//@   modifies nothing
+//@   ensures result == s.blockParams
+
+//@ func applicationState.Upgrader
+//@   props C09
+//@   requires s != nil
+//@   modifies nothing
+
+//@ func abciMux.decodeTx
+//@   props C09 C16
+//@   requires mux != nil && mux.state != nil && ctx != nil
+//@   precall cbor\.Unmarshal$ :: params != nil && (params.MaxTxSize == 0 || uint64(len(rawTx)) <= params.MaxTxSize)
+//@   ensures err == nil ==> r0 != nil && r1 != nil && transaction.TxSigOK(r1) && len(r0.Method) > 0
+//@   ensures err == nil ==> old(mux.state.blockParams) != nil && (old(mux.state.blockParams.MaxTxSize) == 0 || uint64(len(rawTx)) <= old(mux.state.blockParams.MaxTxSize))
+//@   note nothing is decoded before the size limit is checked; a transaction is returned only if its envelope signature verified under the transaction context and its method is non-empty
+
+//@ func abciMux.executeTx
+//@   props C09
+//@   requires mux != nil && mux.state != nil && ctx != nil
+//@   precall abciMux\)\.processTx$ :: argIs(1, tx) && transaction.TxSigOK(sigTx) && api.Signer(ctx) == sigTx.Signed.Signature.PublicKey
+//@   note a transaction is processed only after its signature verified, with the context's signer set to exactly the key that signed it
